@@ -528,3 +528,36 @@ Theorem C07_ra_wellformed_no_lla : forall c pf rd dm di junk fr,
   wf_ra (host_mac c) (repeat 0 16) (mtu c) pf rd dm di fr = true.
 Proof. exact ra_wf_no_lla. Qed.
 Print Assumptions C07_ra_wellformed_no_lla.
+
+(* ---- state carried between sends through the shared buffer pool (Model/SendPool.v) ---- *)
+From PV Require Import Model.SendPool Proofs.SendPool.
+
+(* the pool discipline of the send functions (one Get, one deferred Put of that buffer, no other Put: read off the
+   source by the `pool` case): whatever was sent or refused before, no send ever holds the same buffer twice and the
+   pool never holds a buffer twice *)
+Theorem C07_pool_discipline : forall (h : list step) s,
+  pool_ok s -> exists s', pool_run (shape_of h) s = Some s' /\ pool_ok s'.
+Proof. exact pool_run_ok. Qed.
+Print Assumptions C07_pool_discipline.
+
+(* the frame of a send does not depend on the history: after any history h of sends and refused calls the buffers of
+   the next send are distinct memory (first conjunct), so what it writes is the pure function [emit] of its own
+   arguments (second), and that frame is well-formed whatever the previous contents of the buffers (third) *)
+Theorem C07_send_independent_of_history : forall c (h : list step) (st : step),
+  cfg_ok c -> Forall step_ok h -> step_ok st ->
+  (exists s', pool_run (shape_of (h ++ [st])) pool0 = Some s' /\ pool_ok s') /\
+  run c (h ++ [st]) = (run c h ++ frames_of (emit c st))%list /\
+  (forall fr, In fr (frames_of (emit c st)) -> exists ev, wf_event c ev fr = true).
+Proof. exact send_independent_of_history. Qed.
+Print Assumptions C07_send_independent_of_history.
+
+(* the discipline is what makes it true: one Put next to the deferred one on a refused single-buffer send, and the
+   next send that holds two buffers (forced DECLINE / RELEASE) gets the same memory twice *)
+Theorem C07_pool_double_put_aliases : pool_run [(1, 1); (0, 2)]%nat pool0 = None.
+Proof. exact double_put_aliases. Qed.
+Print Assumptions C07_pool_double_put_aliases.
+
+Theorem C07_pool_double_put_breaks_invariant : forall s k, pool_ok s -> (k >= 1)%nat ->
+  exists s1, pool_send 1 k s = Some s1 /\ ~ NoDup (free s1).
+Proof. exact double_put_aliases_any. Qed.
+Print Assumptions C07_pool_double_put_breaks_invariant.
